@@ -102,6 +102,14 @@ func (x *Exec) step(fr *Frame, st *State, in ssa.Instruction) {
 		x.mapUpdate(fr, st, x.value(fr, i.Map), x.value(fr, i.Key), x.value(fr, i.Value), i.Map.Type())
 	case *ssa.Range:
 		fr.vals[i] = Tuple{Vals: []Value{x.value(fr, i.X)}}
+		if mt, ok := i.X.Type().Underlying().(*types.Map); ok && x.mapKeySort(mt) == "(_ BitVec 64)" && x.P.specs.Ghosts["rangevisited"] != nil {
+			// ghost bookkeeping of the iteration: which keys were in the map when it
+			// started and which ones have been produced so far
+			m := x.term(x.value(fr, i.X))
+			gt := x.P.ghostType(x.P.specs.Ghosts["rangevisited"].Type)
+			x.setGhost(st, "rangestart", GhostArr{T: "(select " + x.heapGet(st, x.mapDomLeaf(mt)) + " " + m + ")", Sort: gt.Sort(), Typ: gt})
+			x.setGhost(st, "rangevisited", Scalar{T: "$empty"})
+		}
 	case *ssa.Next:
 		fr.vals[i] = x.next(fr, st, i)
 	case *ssa.Call:
@@ -814,8 +822,21 @@ func (x *Exec) next(fr *Frame, st *State, i *ssa.Next) Value {
 	m := x.term(x.value(fr, rng.X))
 	ok := x.em.freshConst("rangeok", "Bool")
 	k := x.freshValue(mt.Key(), "rangekey", st)
-	dom := "(select (select " + x.heapGet(st, x.mapDomLeaf(mt)) + " " + m + ") " + x.term(k) + ")"
+	domArr := "(select " + x.heapGet(st, x.mapDomLeaf(mt)) + " " + m + ")"
+	dom := "(select " + domArr + " " + x.term(k) + ")"
 	x.em.assume(implies(ok, dom))
+	if x.mapKeySort(mt) == "(_ BitVec 64)" && x.P.specs.Ghosts["rangevisited"] != nil {
+		// Go's map iteration: every key present since the start and not deleted
+		// meanwhile is produced exactly once; keys added meanwhile may be skipped
+		gt := x.P.ghostType(x.P.specs.Ghosts["rangevisited"].Type)
+		vis := "(select " + x.heapGet(st, x.ghostLeaf("rangevisited")) + " 1)"
+		start := "(select " + x.heapGet(st, x.ghostLeaf("rangestart")) + " 1)"
+		x.em.assume(implies(ok, not("(select "+vis+" "+x.term(k)+")")))
+		q := x.em.fresh("rk")
+		x.em.assume(implies(not(ok), fmt.Sprintf("(forall ((%s (_ BitVec 64))) (! (=> (and (select %s %s) (select %s %s)) (select %s %s)) :pattern ((select %s %s))))", q, domArr, q, start, q, vis, q, domArr, q)))
+		nv := x.em.define("rangevis", gt.Sort(), ite(ok, "(store "+vis+" "+x.term(k)+" true)", vis))
+		x.setGhost(st, "rangevisited", GhostArr{T: nv, Sort: gt.Sort(), Typ: gt})
+	}
 	v := x.mapLoadVal(st, mt, m, x.term(k), mt.Elem(), "")
 	return Tuple{Vals: []Value{Scalar{T: ok, Typ: types.Typ[types.Bool]}, k, v}}
 }
